@@ -98,7 +98,19 @@ def check_type_agree(ctx):
     # recorder; Rules.load hands it to parse_file_contents
     r = roles(ctx)
     ld = r.loader
-    tl = Table(prog, ld)
+    # private helpers of the loader that hand the data on are read through
+    via = {g.qual for n in walk_no_nested(ld.node)
+           if isinstance(n, ast.Call)
+           for g in [prog.callee_of(ld, n)]
+           if g is not None and g.cls is ld.cls and g.cls is not None
+           and g not in (ld, r.recorder, r.load_rules) and any(
+               isinstance(c, ast.Call) and prog.callee_of(g, c) is r.recorder
+               for c in walk_no_nested(g.node))}
+    tl = Table(prog, ld, inline=(
+        lambda call, frame: (prog.callee_of(frame, call)
+                             if prog.callee_of(frame, call) is not None
+                             and prog.callee_of(frame, call).qual in via
+                             else None))) if via else Table(prog, ld)
     ok_chain = False
     for p in tl.paths:
         reads = [e for e in p.events if e.kind == 'call' and prog.resolve(
@@ -106,7 +118,8 @@ def check_type_agree(ctx):
         loads = [e for e in p.events if e.kind == 'call' and prog.resolve(
             ld.module, e.node.func) == POLICY + '.Rules.load']
         recs = [e for e in p.events if e.kind == 'call'
-                and prog.callee_of(ld, e.node) is r.recorder]
+                and prog.callee_of(prog.functions.get(e.frame, ld),
+                                   e.node) is r.recorder]
         if reads and loads and recs:
             sym = reads[0].sym
 
@@ -884,13 +897,40 @@ def check_pair(ctx):
     ld, rec = r.loader, r.recorder
     sr = prog.func(ENF + '.set_rules')
     ov_set = ov_rec = None
-    for n in walk_no_nested(ld.node):
-        if isinstance(n, ast.Call):
-            g = prog.callee_of(ld, n)
-            if g is sr:
-                ov_set = kwarg(n, 'overwrite', 1)
-            if g is rec:
-                ov_rec = kwarg(n, 'overwrite', 1)
+    via = set()          # private helpers of the loader that apply the file
+
+    def scan(f, binding, depth):
+        nonlocal ov_set, ov_rec
+        for n in walk_no_nested(f.node):
+            if not isinstance(n, ast.Call):
+                continue
+            g = prog.callee_of(f, n)
+            if g is sr or g is rec:
+                ov = kwarg(n, 'overwrite', 1)
+                if isinstance(ov, ast.Name) and ov.id in binding:
+                    ov = binding[ov.id]
+                if g is sr:
+                    ov_set = ov
+                else:
+                    ov_rec = ov
+            elif g is not None and depth and g.cls is ld.cls and \
+                    g.cls is not None and g not in (ld, r.load_rules) and \
+                    any(isinstance(c, ast.Call) and prog.callee_of(g, c) in (
+                        sr, rec) for c in walk_no_nested(g.node)):
+                gp = g.params[1:] if not g.is_static else g.params
+                b2 = {}
+                for i, pn in enumerate(gp):
+                    a = n.args[i] if i < len(n.args) else None
+                    for k in n.keywords:
+                        if k.arg == pn:
+                            a = k.value
+                    if isinstance(a, ast.Name) and a.id in binding:
+                        a = binding[a.id]
+                    if a is not None:
+                        b2[pn] = a
+                via.add(g.qual)
+                scan(g, b2, depth - 1)
+    scan(ld, {}, 2)
     ok = ov_set is not None and ov_rec is not None and U(ov_set) == U(
         ov_rec) == 'overwrite'
     ctx.ob('C10.PAIR', ok, ctx.where(ld.module, ld.node), ld.qual,
@@ -926,7 +966,11 @@ def check_pair(ctx):
            'the file-rule record is not re-initialised in overwrite mode: '
            'stale overrides keep being treated as operator overrides')
     # the loader applies the file when reloaded (or the store is empty)
-    tl = Table(prog, ld)
+    tl = Table(prog, ld, inline=(
+        lambda call, frame: (prog.callee_of(frame, call)
+                             if prog.callee_of(frame, call) is not None
+                             and prog.callee_of(frame, call).qual in via
+                             else None))) if via else Table(prog, ld)
     bad = None
     for p in tl.paths:
         reloaded = None
